@@ -15,6 +15,9 @@ from .common import Slice, fit, fr, ind_tok, run_driver
 ENGINE_TOK = {"sea": "ea", "seax": "ea", "ga": "ea", "adapt": "ea", "mwea": "ea", "de": "de", "ded": "de", "shade": "shade", "cma": "cma", "cmaw": "cma", "cmas": "cma", "local": "local", "lhs": "lhs", "sobol": "sobol"}
 
 
+CLS_TOK = {"EADeme": "ea", "DEDeme": "de", "SHADEDeme": "shade", "CMADeme": "cma", "LocalDeme": "local", "LHSDeme": "lhs", "SobolDeme": "sobol"}
+
+
 def lsc_tok(s):
     k = s["kind"]
     return {"DontStop": "DS", "DontRun": "DR", "AllChildrenStopped": "ACS", "FitnessSteadiness": "ENV", "User": "ENV"}.get(k) or f"ML {s['limit']}"
@@ -148,7 +151,7 @@ def py_dump(snap, mx, parents, n_inv, tree_best):
     out = [head]
     for d in snap["demes"]:
         allinds = [i for g in d["hist"] for i in g]
-        line = f"D {d['id']} {d['level']} {parents.get(d['id']) or '-'} {d['started_at']} {1 if d['active'] else 0} {1 if d['hib'] else 0} {d['n_evals']} [{','.join(d['children'])}] seed {show_ind(d['seed'])} me {d['metaepochs']} gens {d['ngens']} best {show_ind(first_best(mx, allinds))}"
+        line = f"D {d['id']} {d['level']} {parents.get(d['id']) or '-'} {d['started_at']} {1 if d['active'] else 0} {1 if d['hib'] else 0} {d['n_evals']} [{','.join(d['children'])}] seed {show_ind(d['seed'])} me {d['metaepochs']} gens {d['ngens']} cls {CLS_TOK.get(d['cls'], d['cls'])} best {show_ind(first_best(mx, allinds))}"
         # history grouped by metaepoch is not observable through the public accessor; the model's
         # grouping is compared through `me` (number of metaepochs) and the flat generation list
         line += " hist " + " ; ".join(inds_tok(g) for g in d["hist"])
@@ -390,7 +393,7 @@ RELEVANT = {
     "C04": {"best"},
     "C05": {"control", "metaepoch"},
     "C06": {"schedule", "active", "me", "gens", "control"},
-    "C07": {"structure", "levels", "id", "level", "parent", "startedAt", "children", "seed"},
+    "C07": {"structure", "levels", "id", "level", "parent", "startedAt", "children", "seed", "cls"},
     "C08": {"stage:LevelLimit", "active"},
     "C09": {"stage:FarEnough", "stage:NBC_FarEnough"},
     "C10": {"stage:FarEnough", "stage:NBC_FarEnough", "stage:DemeLimit", "stage:LevelLimit", "stage:SkipSameSprout", "stage:BestPerDeme", "stage:NBC_Generator", "stage:NBCGeneratorWithLocalMethod", "sprout"},
@@ -424,6 +427,7 @@ def dump_fields(line):
             me = seg[b + 4 : c].split(" ")
             out[(did, "me")] = me[0]
             out[(did, "gens")] = me[2]
+            out[(did, "cls")] = me[4]
             out[(did, "best")] = seg[c + 6 : d]
             out[(did, "hist")] = seg[d + 6 :]
     return out
